@@ -13,9 +13,9 @@ Init == /\ tid \in 1..Len(Traces) /\ l = 1 /\ a = AInit /\ m = MInit
 \* probing() objects: the stream of a probe that has been left is completed - a stale handler of it that the token
 \* mechanism leaves installed is called but delivers nothing
 Live(a2, o) == IF T.mode = "probe" /\ ~IsOpen(a2, o) THEN 0 ELSE 1
-Mech(m2, mw2) == S.cur = m2.cur /\ \A o \in Ovls : Len(S.recv[o]) = mw2[o]
+Mech(m2, mw2) == S.curseen /\ S.cur = m2.cur /\ \A o \in Ovls : Len(S.recv[o]) = mw2[o]
 Clauses(a2, w2) ==
-  (IF S.cur = ACur(a2) THEN {}
+  (IF ~S.curseen \/ S.cur = ACur(a2) THEN {}
    ELSE (IF \E i \in DOMAIN S.cur : S.cur[i] \in {"K1", "K2"} THEN {"DriverInheritsGenCollection"} ELSE {}) \cup
         (IF Count(S.cur, "K3") # Count(ACur(a2), "K3") THEN {"EnclosingFunctionContext"} ELSE {}) \cup
         (IF \E o \in Ovls : ~IsOpen(a2, o) /\ Count(S.cur, Root(o)) > 0 THEN {"HandlersOfEndedOverlayInstalled"} ELSE {}) \cup
